@@ -328,7 +328,9 @@ def summarize(tier: str, seed: int, merged: dict) -> dict:
             f"level; depth 3-4: subsets of size <= {1 if tier == 'quick' else 2}; thorough depth 4 with a two-setting context "
             "explores only the normal exit, ValueError through all four contexts and one innermost assignment) x exit mode (normal | ValueError or "
             "KeyboardInterrupt raised in the innermost body and caught after k contexts, every k) x one direct assignment "
-            "(none | any of the 7 settings at any level); invariant vars(settings)==model and the helper observations "
+            "(none | any of the 7 settings at any level); invariant vars(settings)==model and the helper observations (Op.str on floats and numpy "
+            "float32/float16 scalars and arrays, Op.is_close at 5 magnitudes, scalar dtype, repr alias, factory manager, FldExporter objects built "
+            "at import time / during the previous observation, Benchmark.run) "
             "checked after every enter/assign/exit. states = distinct (open-context stack, settings) model states, "
             "transitions = invariant evaluations; non-trivial = at least one context names a setting"
         ),
